@@ -1519,6 +1519,24 @@ class C18(Monitor):
             self.t_dl = Q.current_time
         if any(i.is_blocked for n in Q.transitive_nodes for i in here(n)):
             self.seen("c18_blocked_states")
+        # lemma (documented meaning of the state digraph): edge j -> k iff the customer at server j is blocked
+        # towards the node that contains server k.  Not reported; marks the path for deepening.
+        det = Q.deadlock_detector
+        if hasattr(det, "statedigraph"):
+            exp = set()
+            for n in Q.transitive_nodes:
+                if not finite(n):
+                    continue
+                for sv in n.servers:
+                    c = sv.cust
+                    if c is not False and c.is_blocked and numeric_dest(c.destination) and c.destination >= 1:
+                        d = Q.nodes[c.destination]
+                        if finite(d):
+                            for s2 in d.servers:
+                                exp.add((str(sv), str(s2)))
+            if set(det.statedigraph.edges()) != exp:
+                E.EX.tag("lemma:digraph_edges")
+                self.seen("c18_lemma_digraph_failed")
 
     def at_end(self):
         Q = self.Q
